@@ -446,6 +446,71 @@ def SStore.setMany (cfg : Cfg α) (reg : Registry α) (st : SStore α) (pairs : 
 def SStore.getMany (cfg : Cfg α) (reg : Registry α) (st : SStore α) (keys : List Bytes) : List (Res α) :=
   keys.map (SStore.get cfg reg st)
 
+/-! ### the caller's objects: what "storing the value" means for a mutable object
+
+`Memory._set` stores `copy(value)` of what the serializer hands it.  With the NonPickler and the NullSigner the serializer
+hands the caller's own object through, so this copy is what makes the stored thing a VALUE (the content at the time of the
+write) instead of a reference the caller can keep changing.  The store of the model holds `Val α`, never references; the
+heap below makes that explicit. -/
+
+/-- the caller's (mutable) objects: reference ↦ content of the moment -/
+abbrev Heap (α : Type) := Nat → Val α
+
+/-- the caller assigns to / appends to / clears … its own object `r` -/
+def Heap.assign (h : Heap α) (r : Nat) (v : Val α) : Heap α := fun x => if x = r then v else h x
+
+/-- `cache.set(key, obj)` with the caller's object `r`: `encode` of its content of the moment, then `_set` keeps a
+`copy()` — a value -/
+def SStore.setRef (cfg : Cfg α) (reg : Registry α) (st : SStore α) (h : Heap α) (k : Bytes) (r : Nat) : SStore α :=
+  st.set cfg reg k (h r)
+
+/-- what the caller does after the write: changes to its own objects (the store is not an argument: nothing the caller
+does to its objects can reach it) -/
+def Heap.run (h : Heap α) : List (Nat × Val α) → Heap α
+  | [] => h
+  | (r, v) :: rest => Heap.run (h.assign r v) rest
+
+/-! ### transactions over a serializer-equipped backend  (`cashews/backends/transaction.py`)
+
+The overlay of a transaction (`_local_cache`) is a `Memory()` WITHOUT serializer: it holds the VALUES written inside the
+transaction, which `commit` hands to the backend's `set_many` (where they are encoded and signed for the key they are
+committed under).  It must therefore never hold a STORED FORM: `set_raw` / `get_raw` are not transactional — they go
+straight to the backend. -/
+
+structure Tx (α : Type) where
+  /-- newest first -/
+  overlay : List (Bytes × Val α)
+  deleted : List Bytes
+
+def Tx.empty : Tx α := { overlay := [], deleted := [] }
+
+def Tx.lookup (tx : Tx α) (k : Bytes) : Option (Val α) := SStore.lookup tx.overlay k
+
+/-- `TransactionBackend.set` -/
+def Tx.set (tx : Tx α) (k : Bytes) (v : Val α) : Tx α :=
+  { overlay := (k, v) :: tx.overlay, deleted := tx.deleted.filter (· ≠ k) }
+
+/-- `TransactionBackend.delete` -/
+def Tx.delete (tx : Tx α) (k : Bytes) : Tx α :=
+  { overlay := tx.overlay.filter (·.1 ≠ k), deleted := k :: tx.deleted }
+
+/-- `TransactionBackend.set_raw`: `return await self._backend.set_raw(key, value)` — the backend's store, at once -/
+def Tx.setRaw (_tx : Tx α) (st : SStore α) (k : Bytes) (w : Val α) : SStore α := (k, w) :: st
+
+/-- `TransactionBackend.get`: deleted → default; the overlay's value as it is; else the backend's `get` (decode) -/
+def Tx.get (cfg : Cfg α) (reg : Registry α) (tx : Tx α) (st : SStore α) (k : Bytes) : Res α :=
+  if k ∈ tx.deleted then .dflt
+  else match tx.lookup k with
+    | some v => .value v
+    | none => st.get cfg reg k
+
+/-- the pairs `commit` writes: the latest value of every key of the overlay, oldest first -/
+def Tx.pairs (tx : Tx α) : List (Bytes × Val α) := tx.overlay.reverse
+
+/-- `commit`: `delete_many(*_to_delete)`, then `set_many(overlay)` through the backend's serializer -/
+def Tx.commit (cfg : Cfg α) (reg : Registry α) (tx : Tx α) (st : SStore α) : SStore α :=
+  SStore.setMany cfg reg (st.filter fun kv => !(tx.deleted.contains kv.1)) tx.pairs
+
 /-! ### the process over time: `register_type` calls interleaved with writes -/
 
 /-- one step of a process between the write and the read of a key: a `register_type` call (class level: it
